@@ -109,9 +109,7 @@ func (s *Solver) start() error {
 	s.declared = map[string]bool{}
 	s.declOrder = nil
 	s.dead = false
-	if s.name == "cvc5" {
-		s.send("(set-logic QF_BV)")
-	}
+	s.send("(set-logic QF_BV)")
 	s.send("(set-option :produce-models true)")
 	for _, a := range s.assumptions {
 		s.define(a)
